@@ -86,7 +86,7 @@ CHECKS = {
             "Cut-off before the label's latest update, as the property states."),
 }
 
-DONE = ["C01", "C02", "C03", "C04", "C05", "C06", "C07", "C08", "C09", "C10", "C11", "C12", "C13", "C15", "C16", "C17", "C18", "C19", "C20"]
+DONE = ["C01", "C02", "C03", "C04", "C05", "C06", "C07", "C08", "C09", "C10", "C11", "C12", "C13", "C14", "C15", "C16", "C17", "C18", "C19", "C20"]
 
 NOT_YET = "check under construction in this session (see DESIGN.md §5); not claimed until it runs and is sensitivity-tested"
 
